@@ -147,12 +147,66 @@ def run_case(ck, paths, idx):
         ck.sample({"class": case["cls"], "rows": len(A), "width": width, "protein": protein, "formats_checked": sorted("%s/%s" % k for k in files)})
 
 
+WIDE = [65535, 65536, 65537, 65580, 65596, 65600, 65700, 70000, 131071, 131072, 131100, 131172, 196620]
+
+
+def run_wide(ck, paths, idx):
+    """alignments wider than 2^16 / 2^17 columns, read from an aligned file and written in the three formats (no kalign_run:
+    aligning such widths under ASan would take minutes per case, the writers are the same)"""
+    rng = ck.rng.__class__(ck.seed * 334214467 + idx)
+    W = rng.choice(WIDE)
+    kind = rng.choice(["dna", "protein"])
+    alpha = gen.DNA if kind == "dna" else "DEFHIKLMPQRSVWYACGT"
+    root = gen.rand_seq(rng, W, alpha)
+    rows = [root]
+    for _ in range(rng.randint(1, 3)):
+        rows.append("".join("-" if (x := rng.random()) < 0.04 else (rng.choice(alpha) if x < 0.1 else c) for c in root))
+    names = gen.names(rng, len(rows), "s")
+    f = ck.tmp(".afa")
+    common.write_bytes(f, fmt.write_fasta(list(zip(names, rows)), width=rng.choice([60, 80, 1000000])))
+    d = ck.tmpdir()
+    script = ["read 0 %s" % f, "dump 0"] + ["write 0 %s %s/w.%s" % (F, d, F) for F in FORMATS] + ["free 0"]
+    r, lrecs = common.kvdrv(paths, script, scratch=ck.scratch, timeout=900, cpu=600)
+    ctx = {"class": "very_wide", "kind": kind, "idx": idx, "width": W, "rows": len(rows), "wide": True}
+    if ck.proc_violations(r, ctx, allow_rcs=(0,)):
+        return
+    rd = next((x for x in lrecs if x.get("op") == "read"), {})
+    dd = next((x for x in lrecs if x.get("op") == "dump"), None)
+    if rd.get("rc") != 0 or dd is None or dd.get("null"):
+        ck.violation("library-rejected-valid-input", "reading an aligned FASTA file of %d columns failed" % W, ctx)
+        return
+    A = kal.rows_from_gaps(dd)
+    if A != list(zip(names, rows)):
+        # not this property's business (C04/C06 decide how aligned input is taken in); without the true alignment nothing is judged
+        ck.count("wide_cases_skipped_msa_object_differs_from_file")
+        return
+    protein = dd["biotype"] == 0
+    for F in FORMATS:
+        p = "%s/w.%s" % (d, F)
+        if not os.path.exists(p):
+            ck.violation("file-missing:%s" % F, "no %s file written for an alignment of %d columns" % (F, W), ctx)
+            continue
+        data = open(p, "rb").read()
+        errs = check_fasta(data, A) if F == "fasta" else (check_clu(data, A) if F == "clu" else check_msf(data, A, protein))
+        ck.count("files_parsed")
+        ck.count("files_%s_very_wide" % F)
+        for k, e in errs:
+            ck.violation("%s:%s" % (k, "protein" if protein else "nucleotide") if k.startswith("msf-") and "type" in k else k,
+                         "%s (%s; alignment %d rows x %d columns read from an aligned file)" % (e, F, len(A), W), dict(ctx, format=F))
+    ck.evaluated(("wide", idx, W, len(rows), hash(root) & 0xffffff))
+    ck.count("alignments")
+    ck.count("class_very_wide")
+    ck.cset("very_wide_widths", W)
+    ck.cmax("max_width", W)
+
+
 def run(ck, tier):
     paths = build("asan")
     sc = getattr(ck, "scale", 1.0)
     n = int((80 if tier == "quick" else 1500) * sc)
-    common.pmap(lambda i: run_case(ck, paths, i), range(n), workers=12)
-    ck.rule = ("the alignment inputs of C06 (widths around multiples of 60, names 1..200 chars, 2..600 rows, outputs crossing 1024/2048 lines, both kinds); every alignment "
+    nw = max(1, int((4 if tier == "quick" else 40) * sc))
+    common.pmap(lambda i: run_wide(ck, paths, i) if i < 0 else run_case(ck, paths, i), list(range(-nw, 0)) + list(range(n)), workers=12)
+    ck.rule = ("the alignment inputs of C06 (widths around multiples of 60, names 1..200 chars, 2..600 rows, outputs crossing 1024/2048 lines, both kinds) plus alignments of 65535..196620 columns read from aligned files; every alignment "
                "is written by kalign_write_msa in fasta/msf/clu and by the CLI to stdout, and parsed by strict independent readers: FASTA wrapped at exactly 60, Clustal "
                "header + blocks of <= 60 equal-width columns listing every sequence in order, MSF type line / MSF: length / Type: / per-row Len and GCG checksum over the "
                "whole written row / header checksum / '//' / blocks. The true alignment comes from the msa object. Non-trivial = alignment containing gaps.")
@@ -161,6 +215,9 @@ def run(ck, tier):
 
 def replay(ck, doc):
     paths = build("asan")
-    run_case(ck, paths, doc["replay"]["idx"])
+    if doc["replay"].get("wide"):
+        run_wide(ck, paths, doc["replay"]["idx"])
+    else:
+        run_case(ck, paths, doc["replay"]["idx"])
     with ck.lock:
         ck.nontrivial |= set(range(30))
